@@ -22,7 +22,7 @@ TMAX = datetime.datetime(2300,1,1)
 microsecond = datetime.timedelta(microseconds = 1)
 DAY = datetime.timedelta(days = 1)
 iso = re.compile('^[0-9]{4}-[0-9]{2}-[0-9]{2}T')
-ambiguity = re.compile('^[0-9]{1,2}[-/ .][0-9]{1,2}[-/ .][0-9]{2,4}')
+ambiguity = re.compile(r'^[0-9]{1,2}\s*[-/ .]\s*[0-9]{1,2}\s*[-/ .]\s*[0-9]{2,4}') # blanks around the separators are fine with dateutil
 futcodes = list('fghjkmnquvxz'.upper())
 months = ['jan', 'feb', 'mar', 'apr', 'may', 'jun', 'jul', 'aug', 'sep', 'oct', 'nov', 'dec']
 yyyymm = re.compile('^[0-9]{4}[-/ .][0-9]{1,2}$')
